@@ -1,11 +1,14 @@
-"""dev helper: apply every seeded change to /repo in turn, run all claimed quick checks, undo, write seeded/MATRIX.md.
+"""dev helper: apply every seeded change / control to a SCRATCH worktree of /repo (never /repo itself), run all claimed quick
+checks against it (FDV_REPO), remove the worktree, write the matrix.
 
-usage: tools_sweep.py [seed-id ...]     (default: all seeds)
+usage: tools_sweep.py seeded|controls [id ...]
 """
 import json
 import os
+import shutil
 import subprocess
 import sys
+import tempfile
 from concurrent.futures import ThreadPoolExecutor
 
 VERIF = "/verif"
@@ -16,9 +19,9 @@ def claimed():
     return [c["property_id"] for c in m["checks"]]
 
 
-def run_check(pid):
-    p = subprocess.run(["./check", pid, "--tier", "quick"], cwd=VERIF, capture_output=True, text=True, timeout=900,
-                       env=dict(os.environ, FDV_WORKERS="4"))
+def run_check(pid, repo, evdir):
+    p = subprocess.run(["./check", pid, "--tier", "quick"], cwd=VERIF, capture_output=True, text=True, timeout=1800,
+                       env=dict(os.environ, FDV_WORKERS="4", FDV_REPO=repo, FDV_EVIDENCE=evdir))
     first = ""
     for line in p.stdout.splitlines():
         if line.startswith("  flodym") or line.startswith("ANALYSIS-ERROR"):
@@ -27,39 +30,55 @@ def run_check(pid):
     return pid, p.returncode, first
 
 
-def main():
-    seeds = sorted(os.listdir(f"{VERIF}/seeded"))
-    seeds = [s for s in seeds if os.path.isdir(f"{VERIF}/seeded/{s}")]
-    if len(sys.argv) > 1:
-        seeds = [s for s in seeds if s in sys.argv[1:]]
-    props = claimed()
-    assert subprocess.run(["git", "-C", "/repo", "status", "--porcelain", "--untracked-files=no"], capture_output=True, text=True).stdout.strip() == "", "/repo is dirty"
-    rows = []
+def one(kind, s, props):
+    wt = tempfile.mkdtemp(prefix="fdvsweep_", dir="/tmp")
+    os.rmdir(wt)
+    subprocess.check_call(["git", "-C", "/repo", "worktree", "add", "-q", "--detach", wt, "HEAD"])
+    evdir = wt + "_ev"
     try:
-        for s in seeds:
-            subprocess.check_call(["git", "-C", "/repo", "apply", f"{VERIF}/seeded/{s}/patch.diff"])
-            try:
-                with ThreadPoolExecutor(4) as ex:
-                    res = list(ex.map(run_check, props))
-            finally:
-                subprocess.check_call(["git", "-C", "/repo", "checkout", "--", "."])
-            hits = [(p, rc, f) for p, rc, f in res if rc != 0]
-            own = s.split("-")[0]
-            rows.append((s, own, hits))
-            print(s, "->", ", ".join(f"{p}:{'VIOLATION' if rc == 1 else 'ANALYSIS-ERROR'}" for p, rc, _ in hits) or "not detected", flush=True)
+        subprocess.check_call(["git", "-C", wt, "apply", f"{VERIF}/{kind}/{s}/patch.diff"])
+        with ThreadPoolExecutor(5) as ex:
+            res = list(ex.map(lambda p: run_check(p, wt, evdir), props))
     finally:
-        subprocess.call(["git", "-C", "/repo", "checkout", "--", "."])
-    if len(sys.argv) > 1:
+        subprocess.call(["git", "-C", "/repo", "worktree", "remove", "--force", wt])
+        shutil.rmtree(evdir, ignore_errors=True)
+    return s, [(p, rc, f) for p, rc, f in res if rc != 0]
+
+
+def main():
+    kind = sys.argv[1]
+    items = sorted(d for d in os.listdir(f"{VERIF}/{kind}") if os.path.isdir(f"{VERIF}/{kind}/{d}"))
+    if len(sys.argv) > 2:
+        items = [s for s in items if s in sys.argv[2:]]
+    props = claimed()
+    rows = []
+    with ThreadPoolExecutor(3) as ex:
+        for s, hits in ex.map(lambda s: one(kind, s, props), items):
+            rows.append((s, hits))
+            print(s, "->", ", ".join(f"{p}:{'VIOLATION' if rc == 1 else 'ANALYSIS-ERROR' if rc == 2 else rc}" for p, rc, _ in hits) or ("not detected" if kind == "seeded" else "silent (ok)"), flush=True)
+    if len(sys.argv) > 2:
+        for s, hits in rows:
+            for p, rc, f in hits:
+                print("   ", s, p, rc, f)
         return
-    with open(f"{VERIF}/seeded/MATRIX.md", "w") as f:
-        f.write("# Seeded changes versus the quick checks\n\nEach row: one independently written change (see `<id>/notes.md`), applied to /repo, all claimed quick checks run, change undone.\n\n")
-        f.write("| seed | breaks | detected by (exit 1 = VIOLATION, exit 2 = ANALYSIS-ERROR) | first report |\n|---|---|---|---|\n")
-        for s, own, hits in rows:
-            det = ", ".join(f"{p} (exit {rc})" for p, rc, _ in hits) or "**not detected**"
-            first = next((fr for p, rc, fr in hits if p == own), hits[0][2] if hits else "")
-            f.write(f"| {s} | {own} | {det} | {first.replace('|', '/')} |\n")
-        n = sum(1 for _, _, h in rows if any(rc == 1 for _, rc, _ in h))
-        f.write(f"\n{n} of {len(rows)} seeds are reported as a VIOLATION by at least one check; claimed checks: {', '.join(props)}.\n")
+    out = f"{VERIF}/{kind}/MATRIX.md"
+    with open(out, "w") as f:
+        if kind == "seeded":
+            f.write("# Seeded changes versus the quick checks\n\nEach row: one independently written breaking change (see `<id>/notes.md`; ids ending in -A/-B are round 1, -C/-D round 2), applied to a scratch worktree of /repo, all claimed quick checks run against it.\n\n")
+            f.write("| seed | breaks | detected by (exit 1 = VIOLATION, exit 2 = ANALYSIS-ERROR) | first report |\n|---|---|---|---|\n")
+            for s, hits in rows:
+                own = s.split("-")[0]
+                det = ", ".join(f"{p} (exit {rc})" for p, rc, _ in hits) or "**not detected**"
+                first = next((fr for p, rc, fr in hits if p == own), hits[0][2] if hits else "")
+                f.write(f"| {s} | {own} | {det} | {first.replace('|', '/')} |\n")
+            n = sum(1 for _, h in rows if any(rc == 1 for _, rc, _ in h))
+            f.write(f"\n{n} of {len(rows)} seeds are reported as a VIOLATION by at least one check; claimed checks: {', '.join(props)}.\n")
+        else:
+            f.write("# Behaviour-preserving refactorings (false-alarm controls) versus the quick checks\n\nEach row: one independently written refactoring (see `<id>/notes.md`), applied to a scratch worktree, all claimed quick checks run. Every check must stay silent (exit 0).\n\n")
+            f.write("| control | alarms (must be none) |\n|---|---|\n")
+            for s, hits in rows:
+                f.write(f"| {s} | {', '.join(f'{p} (exit {rc}): {fr}' for p, rc, fr in hits).replace('|', '/') or 'none'} |\n")
+            f.write(f"\n{sum(1 for _, h in rows if not h)} of {len(rows)} controls pass all {len(props)} checks silently.\n")
 
 
 if __name__ == "__main__":
